@@ -346,13 +346,21 @@ func genC14(t *rapid.T) *Case {
 
 	// ---------------- IE Reading View ----------------
 	if g.chance(70, "ie") {
+		// a <meta> element may also stand in the body (a parser leaves it where it is once the body has begun)
+		ieMeta := func(markup string) {
+			if g.chance(25, "iemetabody") {
+				body = append(body, piece{"ie", markup})
+			} else {
+				head = append(head, piece{"ie", markup})
+			}
+		}
 		if g.chance(60, "ietitle") {
 			ex.IETitle = g.val("iet", g.intn(1, 5, "ietw"))
-			head = append(head, piece{"ie", `<meta name="` + g.pick("ietname", "title", "Title") + `" content="` + ex.IETitle + `">`})
+			ieMeta(`<meta name="` + g.pick("ietname", "title", "Title") + `" content="` + ex.IETitle + `">`)
 		}
 		if g.chance(50, "iecopy") {
 			ex.IECopyright = g.val("iec", 3)
-			head = append(head, piece{"ie", `<meta name="copyright" content="` + ex.IECopyright + `">`})
+			ieMeta(`<meta name="copyright" content="` + ex.IECopyright + `">`)
 		}
 		dateline := ""
 		if g.chance(40, "iedateline") {
@@ -361,7 +369,7 @@ func genC14(t *rapid.T) *Case {
 		}
 		if g.chance(40, "iedisplaydate") {
 			dd := g.val("iedd", 2)
-			head = append(head, piece{"ie", `<meta name="displaydate" content="` + dd + `">`})
+			ieMeta(`<meta name="displaydate" content="` + dd + `">`)
 			if dateline == "" {
 				ex.IEDate = dd
 			}
@@ -386,9 +394,9 @@ func genC14(t *rapid.T) *Case {
 		switch g.weighted("optout", []wc{{"absent", 60}, {"true", 25}, {"false", 15}}) {
 		case "true":
 			ex.OptOut = true
-			head = append(head, piece{"ie", `<meta name="` + g.pick("offname", "IE_RM_OFF", "ie_rm_off") + `" content="` + g.pick("offval", "true", "True", "TRUE") + `">`})
+			ieMeta(`<meta name="` + g.pick("offname", "IE_RM_OFF", "ie_rm_off") + `" content="` + g.pick("offval", "true", "True", "TRUE") + `">`)
 		case "false":
-			head = append(head, piece{"ie", `<meta name="IE_RM_OFF" content="false">`})
+			ieMeta(`<meta name="IE_RM_OFF" content="false">`)
 		}
 	}
 
